@@ -2,13 +2,132 @@ import YaegiVerif.Model.Method
 import YaegiVerif.Model.MethodClass
 import YaegiVerif.Spec.GoSelector
 /-
-  C05 — helper lemmas: the interpreter's first-hit searches are the heads of the specification's
-  enumerations; the shallowest-unique choice on lists; well-formedness makes the fuel sufficient.
+  C05 — helper lemmas: the interpreter's searches (first hit depth first before 4f1c6ee / a60b058,
+  shortest path since) are the heads / the first minima of the specification's enumerations;
+  `methodCount` counts the enumeration at one depth; the shallowest-unique choice on lists.
 -/
 namespace YaegiVerif.Proofs.C05
 open YaegiVerif.Method YaegiVerif.Spec.Selector YaegiVerif.MethodClass
 
-/-! ### first hit = head of the enumeration -/
+/-! ### first minimum of a list -/
+
+/-- leftmost of two optional candidates, the second only when strictly smaller -/
+def mergeMin (key : α → Nat) : Option α → Option α → Option α
+  | x, none => x
+  | none, y => y
+  | some a, some b => if key b < key a then some b else some a
+
+theorem mergeMin_none_left (key : α → Nat) (y : Option α) : mergeMin key none y = y := by
+  cases y <;> rfl
+
+theorem mergeMin_none_right (key : α → Nat) (x : Option α) : mergeMin key x none = x := by
+  cases x <;> rfl
+
+theorem mergeMin_assoc (key : α → Nat) (x y z : Option α) :
+    mergeMin key (mergeMin key x y) z = mergeMin key x (mergeMin key y z) := by
+  cases x with
+  | none => rw [mergeMin_none_left, mergeMin_none_left]
+  | some a =>
+    cases y with
+    | none => rw [mergeMin_none_right, mergeMin_none_left]
+    | some b =>
+      cases z with
+      | none => rw [mergeMin_none_right, mergeMin_none_right]
+      | some c =>
+        by_cases h1 : key b < key a <;> by_cases h2 : key c < key b <;> by_cases h3 : key c < key a <;>
+          simp [mergeMin, h1, h2, h3] <;> omega
+
+theorem firstMinBy_cons (key : α → Nat) (a : α) (l : List α) :
+    firstMinBy key (a :: l) = mergeMin key (some a) (firstMinBy key l) := by
+  simp only [firstMinBy]
+  cases firstMinBy key l <;> rfl
+
+theorem firstMinBy_append (key : α → Nat) : ∀ (l1 l2 : List α),
+    firstMinBy key (l1 ++ l2) = mergeMin key (firstMinBy key l1) (firstMinBy key l2) := by
+  intro l1
+  induction l1 with
+  | nil => intro l2; simp [firstMinBy, mergeMin_none_left]
+  | cons a l ih =>
+    intro l2
+    rw [List.cons_append, firstMinBy_cons, ih, firstMinBy_cons, mergeMin_assoc]
+
+theorem firstMinBy_map (key : α → Nat) (f : α → α) (hf : ∀ x, key (f x) = key x + 1) : ∀ (l : List α),
+    firstMinBy key (l.map f) = (firstMinBy key l).map f := by
+  intro l
+  induction l with
+  | nil => rfl
+  | cons a l ih =>
+    rw [List.map_cons, firstMinBy_cons, ih, firstMinBy_cons]
+    cases firstMinBy key l with
+    | none => rfl
+    | some b =>
+      simp only [Option.map_some, mergeMin, hf]
+      by_cases h : key b < key a
+      · simp [h]
+      · simp [h]
+
+theorem firstMinBy_none' (key : α → Nat) (l : List α) (h : firstMinBy key l = none) : l = [] := by
+  cases l with
+  | nil => rfl
+  | cons a l' =>
+    rw [firstMinBy_cons] at h
+    cases hq : firstMinBy key l' with
+    | none => simp [hq, mergeMin] at h
+    | some b =>
+      rw [hq] at h
+      simp only [mergeMin] at h
+      split at h <;> simp at h
+
+theorem firstMinBy_spec (key : α → Nat) : ∀ (l : List α) (a : α), firstMinBy key l = some a →
+    a ∈ l ∧ ∀ b ∈ l, key a ≤ key b := by
+  intro l
+  induction l with
+  | nil => intro a h; simp [firstMinBy] at h
+  | cons c l ih =>
+    intro a h
+    rw [firstMinBy_cons] at h
+    cases hm : firstMinBy key l with
+    | none =>
+      rw [hm] at h
+      simp only [mergeMin, Option.some.injEq] at h
+      subst h
+      have := firstMinBy_none' key l hm
+      subst this
+      simp
+    | some b =>
+      rw [hm] at h
+      obtain ⟨hb, hall⟩ := ih b hm
+      simp only [mergeMin] at h
+      by_cases hlt : key b < key c
+      · simp only [hlt, if_true, Option.some.injEq] at h
+        subst h
+        refine ⟨by simp [hb], ?_⟩
+        intro x hx
+        simp only [List.mem_cons] at hx
+        rcases hx with rfl | hx
+        · omega
+        · exact hall x hx
+      · simp only [hlt, if_false, Option.some.injEq] at h
+        subst h
+        refine ⟨by simp, ?_⟩
+        intro x hx
+        simp only [List.mem_cons] at hx
+        rcases hx with rfl | hx
+        · omega
+        · have := hall x hx; omega
+
+/-- a head that no later element undercuts is the first minimum -/
+theorem firstMinBy_head (key : α → Nat) (a : α) (l : List α) (h : ∀ b ∈ l, key a ≤ key b) :
+    firstMinBy key (a :: l) = some a := by
+  rw [firstMinBy_cons]
+  cases hm : firstMinBy key l with
+  | none => rfl
+  | some b =>
+    have := h b (firstMinBy_spec key l b hm).1
+    simp only [mergeMin]
+    rw [if_neg (by omega)]
+
+/-! ### the searches of the interpreter and the enumerations of the specification -/
 
 theorem firstVia_eq_head {α : Type} (pred : Field → Bool) (g1 : Nat → Option α) (g2 : Nat → List α)
     (push : Nat → α → α) (h : ∀ j, g1 j = (g2 j).head?) :
@@ -28,10 +147,34 @@ theorem firstVia_eq_head {α : Type} (pred : Field → Bool) (g1 : Nat → Optio
     · simp only [hp]
       simp [ih]
 
-/-- `lookupMethod2` finds the first element of the depth-first enumeration of all methods of
-    that name (all declaration sets, all fuels) -/
+/-- the loop that keeps the shortest path computes the first minimum of the enumeration -/
+theorem bestVia_eq_firstMin {α : Type} (pred : Field → Bool) (g1 : Nat → Option α) (g2 : Nat → List α)
+    (push : Nat → α → α) (len : α → Nat) (hpush : ∀ i x, len (push i x) = len x + 1)
+    (h : ∀ j, g1 j = firstMinBy len (g2 j)) :
+    ∀ (fs : List Field) (i : Nat) (cur : Option α),
+      bestVia pred g1 push len fs i cur = mergeMin len cur (firstMinBy len (allVia pred g2 push fs i)) := by
+  intro fs
+  induction fs with
+  | nil => intro i cur; simp [bestVia, allVia, firstMinBy, mergeMin_none_right]
+  | cons f fs ih =>
+    intro i cur
+    unfold bestVia allVia
+    rw [ih, firstMinBy_append, ← mergeMin_assoc]
+    congr 1
+    by_cases hp : pred f = true
+    · simp only [hp, if_true]
+      rw [h f.typ, firstMinBy_map len (push i) (hpush i)]
+      cases hg : firstMinBy len (g2 f.typ) with
+      | none => cases cur <;> rfl
+      | some r =>
+        cases cur with
+        | none => rfl
+        | some c => simp only [Option.map_some, mergeMin, hpush]
+    · simp only [hp]
+      cases cur <;> rfl
+
 theorem lookupMethodF_eq_head (D : Decls) : ∀ (fuel t : Nat) (m : String),
-    lookupMethodF D fuel t m = (moccF D fuel t m).head? := by
+    lookupMethodF .firstDfs D fuel t m = (moccF D fuel t m).head? := by
   intro fuel
   induction fuel with
   | zero => intro t m; rfl
@@ -41,23 +184,28 @@ theorem lookupMethodF_eq_head (D : Decls) : ∀ (fuel t : Nat) (m : String),
     cases hg : getMethod (methsOf D t) m with
     | some x => simp
     | none =>
-      simp only [List.nil_append]
+      simp only [List.nil_append, pickVia]
       exact firstVia_eq_head _ _ _ _ (fun j => ih j m) _ _
 
-/-- with the loop of `lookupField` restricted to embedded fields the same holds for fields -/
-theorem lookupFieldF_eq_head (F : Facts) (hF : F.fieldLoopEmbedOnly = true) (D : Decls) :
-    ∀ (fuel t : Nat) (x : String), lookupFieldF F D fuel t x = (foccF D fuel t x).head? := by
+/-- **`lookupMethod2` (since 4f1c6ee) finds the first of the shallowest methods** of the depth-first
+    enumeration of all methods of that name (all declaration sets, all fuels) -/
+theorem lookupMethodF_eq_firstMin (D : Decls) : ∀ (fuel t : Nat) (m : String),
+    lookupMethodF .shallowest D fuel t m = firstMinBy (fun h => h.path.length) (moccF D fuel t m) := by
   intro fuel
   induction fuel with
-  | zero => intro t x; rfl
+  | zero => intro t m; rfl
   | succ n ih =>
-    intro t x
-    unfold lookupFieldF foccF
-    cases hg : fieldIndex (fieldsOf D t) x 0 with
-    | some p => obtain ⟨i, f⟩ := p; simp
+    intro t m
+    unfold lookupMethodF moccF
+    cases hg : getMethod (methsOf D t) m with
+    | some x =>
+      simp only [List.singleton_append]
+      rw [firstMinBy_head]
+      intro b _; simp
     | none =>
-      simp only [hF, if_true, List.nil_append]
-      exact firstVia_eq_head _ _ _ _ (fun j => ih j x) _ _
+      simp only [List.nil_append, pickVia]
+      rw [bestVia_eq_firstMin _ _ (fun j => moccF D n j m) _ _ (by intro i x; simp [MHit.push]) (fun j => ih j m),
+        mergeMin_none_left]
 
 /-! ### paths of field hits are never empty -/
 
@@ -98,6 +246,48 @@ theorem foccF_path_ne (D : Decls) : ∀ (fuel t : Nat) (x : String) (h : FHit), 
     | inr h2 =>
       obtain ⟨f, _, k, b, _, _, rfl⟩ := allVia_mem _ _ _ _ _ _ h2
       simp [FHit.push]
+
+/-- **`lookupField` (since a60b058) finds the first of the shallowest fields** reachable through
+    embedded fields -/
+theorem lookupFieldF_eq_firstMin (F : Facts) (hE : F.fieldLoopEmbedOnly = true) (hP : F.fieldPick = .shallowest) (D : Decls) :
+    ∀ (fuel t : Nat) (x : String),
+      lookupFieldF F D fuel t x = firstMinBy (fun h => h.path.length) (foccF D fuel t x) := by
+  intro fuel
+  induction fuel with
+  | zero => intro t x; rfl
+  | succ n ih =>
+    intro t x
+    unfold lookupFieldF foccF
+    cases hg : fieldIndex (fieldsOf D t) x 0 with
+    | some p =>
+      obtain ⟨i, f⟩ := p
+      simp only [List.singleton_append]
+      rw [firstMinBy_head]
+      intro b hb
+      obtain ⟨f', _, k, c, _, hc, rfl⟩ := allVia_mem _ _ _ _ _ _ hb
+      have := foccF_path_ne D n f'.typ x c hc
+      cases hp : c.path with
+      | nil => exact absurd hp this
+      | cons a as => simp [FHit.push, hp]
+    | none =>
+      simp only [List.nil_append, pickVia, hE, hP, if_true]
+      rw [bestVia_eq_firstMin _ _ (fun j => foccF D n j x) _ _ (by intro i y; simp [FHit.push]) (fun j => ih j x),
+        mergeMin_none_left]
+
+/-- before a60b058, on the old facts restricted to embedded fields: the head of the enumeration -/
+theorem lookupFieldF_eq_head (F : Facts) (hF : F.fieldLoopEmbedOnly = true) (hP : F.fieldPick = .firstDfs) (D : Decls) :
+    ∀ (fuel t : Nat) (x : String), lookupFieldF F D fuel t x = (foccF D fuel t x).head? := by
+  intro fuel
+  induction fuel with
+  | zero => intro t x; rfl
+  | succ n ih =>
+    intro t x
+    unfold lookupFieldF foccF
+    cases hg : fieldIndex (fieldsOf D t) x 0 with
+    | some p => obtain ⟨i, f⟩ := p; simp
+    | none =>
+      simp only [hF, hP, pickVia, if_true, List.nil_append]
+      exact firstVia_eq_head _ _ _ _ (fun j => ih j x) _ _
 
 /-! ### shallowest and unique -/
 
@@ -198,118 +388,152 @@ theorem pick_mem (os : List (Nat × Sel)) (s : Sel) (h : pickShallowest os = s)
         exact ⟨a, (List.mem_filter.mp this).1, h⟩
       | cons b bs => simp [hf] at h; exact absurd h.symm h2
 
-/-- if the Go rule selects the first method of the enumeration, that method is strictly shallower
-    than all the others -/
-theorem pick_head_method (a : MHit) (rest : List MHit)
-    (h : pickShallowest ((a.depth, Sel.method a) :: rest.map (fun h => (h.depth, Sel.method h))) = .method a) :
-    ∀ r ∈ rest, a.depth < r.depth := by
-  intro r hr
-  apply Classical.byContradiction
-  intro hle
-  have hle : r.depth ≤ a.depth := by omega
-  unfold pickShallowest at h
-  obtain ⟨d, hd⟩ := minDepth_ne_none ((a.depth, Sel.method a) :: rest.map (fun h => (h.depth, Sel.method h))) (by simp)
-  obtain ⟨_, hall⟩ := minDepth_spec _ _ hd
-  rw [hd] at h
-  simp only at h
-  have hda : d ≤ a.depth := hall (a.depth, Sel.method a) (by simp)
-  have hdr : d ≤ r.depth := hall (r.depth, Sel.method r) (by
-    simp only [List.mem_cons, List.mem_map]
-    exact Or.inr ⟨r, hr, rfl⟩)
-  cases hf : ((a.depth, Sel.method a) :: rest.map (fun h => (h.depth, Sel.method h))).filter (fun o => o.1 == d) with
-  | nil => rw [hf] at h; simp at h
-  | cons o os =>
-    cases os with
-    | cons b bs => rw [hf] at h; simp at h
+/-- **the Go rule, given a shallowest candidate**: it is selected when it is the only entry at its
+    depth, otherwise the selector is ambiguous -/
+theorem pick_of_min (os : List (Nat × Sel)) (o : Nat × Sel) (ho : o ∈ os) (hmin : ∀ x ∈ os, o.1 ≤ x.1) :
+    pickShallowest os = if (os.filter (fun y => y.1 == o.1)).length = 1 then o.2 else .ambiguous := by
+  unfold pickShallowest
+  obtain ⟨d, hd⟩ := minDepth_ne_none os (List.ne_nil_of_mem ho)
+  obtain ⟨⟨x, hx, hxd⟩, hall⟩ := minDepth_spec _ _ hd
+  have hdo : d = o.1 := by
+    have h1 : d ≤ o.1 := hall o ho
+    have h2 := hmin x hx
+    omega
+  rw [hd]
+  simp only
+  subst hdo
+  have hof : o ∈ os.filter (fun y => y.1 == o.1) := List.mem_filter.mpr ⟨ho, by simp⟩
+  cases hf : os.filter (fun y => y.1 == o.1) with
+  | nil => rw [hf] at hof; simp at hof
+  | cons a as =>
+    cases as with
     | nil =>
-      rw [hf] at h
-      simp only at h
-      have ho : o ∈ ((a.depth, Sel.method a) :: rest.map (fun h => (h.depth, Sel.method h))).filter (fun o => o.1 == d) := by
-        rw [hf]; simp
-      obtain ⟨hoL, hod⟩ := List.mem_filter.mp ho
-      have hod' : o.1 = d := by simpa using hod
-      -- o is the pair of a
-      have hoa : o.1 = a.depth := by
-        simp only [List.mem_cons, List.mem_map] at hoL
-        rcases hoL with rfl | ⟨r', _, rfl⟩
-        · rfl
-        · simp only at h
-          have : r' = a := by injection h
-          subst this; rfl
-      have hdeq : d = a.depth := by omega
-      have hrd : r.depth = d := by omega
-      -- both the pair of a and the pair of r pass the filter
-      rw [List.filter_cons] at hf
-      have hpa : ((a.depth, Sel.method a).1 == d) = true := by simp [hdeq]
-      rw [if_pos hpa] at hf
-      have hnil : (rest.map (fun h => (h.depth, Sel.method h))).filter (fun o => o.1 == d) = [] := by
-        injection hf
-      have hmem : (r.depth, Sel.method r) ∈ (rest.map (fun h => (h.depth, Sel.method h))).filter (fun o => o.1 == d) := by
-        apply List.mem_filter.mpr
-        constructor
-        · exact List.mem_map.mpr ⟨r, hr, rfl⟩
-        · simp [hrd]
-      rw [hnil] at hmem
-      simp at hmem
+      rw [hf] at hof
+      simp only [List.mem_singleton] at hof
+      subst hof
+      simp
+    | cons b bs => simp
 
-/-! ### `lookupField` on declaration sets without non-embedded struct fields -/
+theorem countAt_append (d : Nat) (l1 l2 : List Nat) : countAt d (l1 ++ l2) = countAt d l1 + countAt d l2 := by
+  simp [countAt, List.filter_append]
 
-theorem firstVia_congr_pred {α : Type} (p q : Field → Bool) (g : Nat → Option α) (push : Nat → α → α) :
-    ∀ (fs : List Field) (i : Nat), (∀ f ∈ fs, p f = q f) → firstVia p g push fs i = firstVia q g push fs i := by
-  intro fs
-  induction fs with
-  | nil => intro i _; rfl
-  | cons f fs ih =>
-    intro i h
-    unfold firstVia
-    rw [h f (by simp), ih (i + 1) (fun f' hf' => h f' (by simp [hf']))]
+theorem countAt_zero_of_ne (d : Nat) (l : List Nat) (h : ∀ e ∈ l, e ≠ d) : countAt d l = 0 := by
+  unfold countAt
+  rw [filter_none]
+  · rfl
+  · intro e he; simpa using h e he
 
-theorem fieldsOf_plainFree (D : Decls) (hD : plainFree D = true) (t : Nat) :
-    ∀ f ∈ fieldsOf D t, Field.isStruct f = Field.isEmb f := by
-  intro f hf
-  unfold fieldsOf at hf
-  cases hg : D[t]? with
-  | none => simp [hg] at hf
-  | some d =>
-    cases d with
-    | iface n ms es => simp [hg] at hf
-    | strct n fs ms =>
-      simp [hg] at hf
-      have hmem : TDecl.strct n fs ms ∈ D := List.mem_of_getElem? hg
-      unfold plainFree at hD
-      have := (List.all_eq_true.mp hD) _ hmem
-      simp only at this
-      have hk := (List.all_eq_true.mp this) f hf
-      unfold Field.isStruct Field.isEmb
-      cases hkind : f.kind <;> simp_all
+/-- entries of one kind at depth `d`, counted on the list of depths -/
+theorem filter_length_countAt {β : Type} (e : β → Nat × Sel) (key : β → Nat) (he : ∀ x, (e x).1 = key x) (d : Nat) :
+    ∀ (l : List β), ((l.map e).filter (fun y => y.1 == d)).length = countAt d (l.map key) := by
+  intro l
+  induction l with
+  | nil => rfl
+  | cons a l ih =>
+    unfold countAt at *
+    simp only [List.map_cons, List.filter_cons, he]
+    by_cases h : key a = d
+    · simp [h, ih]
+    · simp [h, ih]
 
-theorem lookupFieldF_eq_head_plainFree (F : Facts) (D : Decls) (hD : plainFree D = true) :
-    ∀ (fuel t : Nat) (x : String), lookupFieldF F D fuel t x = (foccF D fuel t x).head? := by
+/-! ### `methodCount` counts the entries of the enumeration at one depth -/
+
+theorem moccF_depth_lt (D : Decls) (m : String) : ∀ (fuel t : Nat) (h : MHit), h ∈ moccF D fuel t m → h.depth < fuel := by
   intro fuel
   induction fuel with
-  | zero => intro t x; rfl
+  | zero => intro t h hm; simp [moccF] at hm
   | succ n ih =>
-    intro t x
-    unfold lookupFieldF foccF
-    cases hg : fieldIndex (fieldsOf D t) x 0 with
-    | some p => obtain ⟨i, f⟩ := p; simp
-    | none =>
-      simp only [List.nil_append]
-      have hc : firstVia (if F.fieldLoopEmbedOnly then Field.isEmb else Field.isStruct)
-            (fun j => lookupFieldF F D n j x) FHit.push (fieldsOf D t) 0 =
-          firstVia Field.isEmb (fun j => lookupFieldF F D n j x) FHit.push (fieldsOf D t) 0 := by
-        apply firstVia_congr_pred
-        intro f hf
-        cases F.fieldLoopEmbedOnly
-        · simpa using fieldsOf_plainFree D hD t f hf
-        · rfl
-      rw [hc]
-      exact firstVia_eq_head _ _ _ _ (fun j => ih j x) _ _
+    intro t h hm
+    unfold moccF at hm
+    rw [List.mem_append] at hm
+    cases hm with
+    | inl h1 =>
+      cases hg : getMethod (methsOf D t) m with
+      | none => simp [hg] at h1
+      | some x => simp [hg] at h1; subst h1; simp [MHit.depth]
+    | inr h2 =>
+      obtain ⟨f, _, k, b, _, hb, rfl⟩ := allVia_mem _ _ _ _ _ _ h2
+      have := ih f.typ b hb
+      simp only [MHit.depth, MHit.push, List.length_cons] at *
+      omega
 
-/-! ### headStrictMin -/
+theorem countAt_allVia_zero (pred : Field → Bool) (g : Nat → List MHit) : ∀ (fs : List Field) (i : Nat),
+    countAt 0 ((allVia pred g MHit.push fs i).map MHit.depth) = 0 := by
+  intro fs i
+  apply countAt_zero_of_ne
+  intro e he
+  obtain ⟨h, hh, rfl⟩ := List.mem_map.mp he
+  obtain ⟨f, _, k, b, _, _, rfl⟩ := allVia_mem _ _ _ _ _ _ hh
+  simp [MHit.depth, MHit.push]
 
-theorem headStrictMin_cons (d : Nat) (rest : List Nat) :
-    headStrictMin (d :: rest) = true ↔ ∀ e ∈ rest, d < e := by
-  simp [headStrictMin]
+theorem countAt_succ_push (d i : Nat) : ∀ (l : List MHit),
+    countAt (d + 1) ((l.map (MHit.push i)).map MHit.depth) = countAt d (l.map MHit.depth) := by
+  intro l
+  induction l with
+  | nil => rfl
+  | cons a l ih =>
+    have hd : (MHit.push i a).depth = a.depth + 1 := by simp [MHit.depth, MHit.push]
+    rw [List.map_cons, List.map_cons, List.map_cons]
+    have e1 : ∀ (x : Nat) (r : List Nat), countAt (d + 1) (x :: r) = (if x = d + 1 then 1 else 0) + countAt (d + 1) r := by
+      intro x r; unfold countAt; by_cases h : x = d + 1 <;> simp [List.filter_cons, h] <;> omega
+    have e2 : ∀ (x : Nat) (r : List Nat), countAt d (x :: r) = (if x = d then 1 else 0) + countAt d r := by
+      intro x r; unfold countAt; by_cases h : x = d <;> simp [List.filter_cons, h] <;> omega
+    rw [e1, e2, ih, hd]
+    by_cases h : a.depth = d
+    · simp [h]
+    · simp [h]
+
+theorem countAt_succ_allVia (pred : Field → Bool) (g : Nat → List MHit) (d : Nat) : ∀ (fs : List Field) (i : Nat),
+    countAt (d + 1) ((allVia pred g MHit.push fs i).map MHit.depth) =
+      (fs.map (fun f => if pred f then countAt d ((g f.typ).map MHit.depth) else 0)).sum := by
+  intro fs
+  induction fs with
+  | nil => intro i; rfl
+  | cons f fs ih =>
+    intro i
+    unfold allVia
+    rw [List.map_append, countAt_append, ih, List.map_cons, List.sum_cons]
+    congr 1
+    by_cases hp : pred f = true
+    · simp only [hp, if_true]; exact countAt_succ_push d i _
+    · simp only [hp]; rfl
+
+theorem sum_map_congr {β : Type} (f g : β → Nat) : ∀ (l : List β), (∀ x ∈ l, f x = g x) → (l.map f).sum = (l.map g).sum := by
+  intro l
+  induction l with
+  | nil => intro _; rfl
+  | cons a l ih =>
+    intro h
+    rw [List.map_cons, List.map_cons, List.sum_cons, List.sum_cons, h a (by simp), ih (fun x hx => h x (by simp [hx]))]
+
+/-- **`methodCount(name, d)` is the number of methods of that name at depth `d`** of the enumeration -/
+theorem methodCountY_eq (D : Decls) (m : String) : ∀ (fuel d t : Nat), d < fuel →
+    methodCountY D d t m = countAt d ((moccF D fuel t m).map MHit.depth) := by
+  intro fuel
+  induction fuel with
+  | zero => intro d t h; omega
+  | succ n ih =>
+    intro d t hd
+    unfold moccF
+    rw [List.map_append, countAt_append]
+    cases d with
+    | zero =>
+      rw [countAt_allVia_zero]
+      unfold methodCountY
+      cases hg : getMethod (methsOf D t) m with
+      | none => rfl
+      | some x => simp [countAt, MHit.depth]
+    | succ d' =>
+      rw [countAt_succ_allVia]
+      unfold methodCountY
+      have hs := sum_map_congr (fun f => if f.isEmb then methodCountY D d' f.typ m else 0)
+        (fun f => if f.isEmb then countAt d' ((moccF D n f.typ m).map MHit.depth) else 0) (fieldsOf D t)
+        (by
+          intro f _
+          by_cases hp : f.isEmb = true
+          · simp only [hp, if_true]; exact ih d' f.typ (by omega)
+          · simp only [hp]; rfl)
+      rw [hs]
+      cases getMethod (methsOf D t) m <;> simp [countAt, MHit.depth]
 
 end YaegiVerif.Proofs.C05
